@@ -39,12 +39,32 @@ func noInitPkg(path string) bool {
 func harnessOverlay(pkgDir, pkgName string, files []string, replay bool) (map[string][]byte, error) {
 	ov := map[string][]byte{}
 	for _, f := range files {
+		// a harness file x.go may have a companion x_native.go: environment stubs whose bodies exist only in the
+		// natively compiled replay (the engine intercepts the body-less declarations in x.go by name)
+		if replay {
+			companion := strings.TrimSuffix(f, ".go") + "_native.go"
+			if nsrc, err := os.ReadFile(filepath.Join(verifRoot, "harness", companion)); err == nil {
+				ns := strings.Replace(string(nsrc), "package PKG", "package "+pkgName, 1)
+				ov[filepath.Join(pkgDir, "zz_verif_"+filepath.Base(companion))] = []byte(ns)
+			}
+		}
 		src, err := os.ReadFile(filepath.Join(verifRoot, "harness", f))
 		if err != nil {
 			return nil, err
 		}
 		s := string(src)
 		s = strings.Replace(s, "package PKG", "package "+pkgName, 1)
+		if replay {
+			// lines marked //engine-only (body-less stub declarations) are dropped in the native build
+			var kept []string
+			for _, line := range strings.Split(s, "\n") {
+				if strings.HasSuffix(strings.TrimSpace(line), "//engine-only") {
+					continue
+				}
+				kept = append(kept, line)
+			}
+			s = strings.Join(kept, "\n")
+		}
 		base := filepath.Base(f)
 		if !strings.HasPrefix(base, "zz_verif_") {
 			base = "zz_verif_" + base
